@@ -50,7 +50,7 @@ fn b64_std_seeds(_t: Tier) -> Vec<Seed> {
 }
 
 macro_rules! b64_pair {
-    ($v:ident, $name:literal, $seeds:expr, $dec:expr) => {
+    ($v:ident, $name:literal, $seeds:expr, $dec:expr, $small:expr) => {
         $v.push(P {
             name: concat!($name, "[utf8]"),
             seeds: $seeds,
@@ -59,13 +59,16 @@ macro_rules! b64_pair {
                 Err(_) => false,
             },
             len_arg: false,
-            small: true,
+            small: $small,
         });
-        $v.push(P { name: concat!($name, "[latin1]"), seeds: $seeds, parse: |b, _| ($dec)(&latin1(b)), len_arg: false, small: true });
+        $v.push(P { name: concat!($name, "[latin1]"), seeds: $seeds, parse: |b, _| ($dec)(&latin1(b)), len_arg: false, small: $small });
     };
 }
 
-pub fn all(_tier: Tier) -> Vec<P> {
+pub fn all(tier: Tier) -> Vec<P> {
+    // every Base64 entry point ends in the same `base64` crate engine: all short strings for two of them in
+    // quick, for all of them in thorough
+    let th = tier == Tier::Thorough;
     let mut v: Vec<P> = vec![
         P { name: "hex_decode_bytes", seeds: hex_seeds, parse: |b, _| hex_decode_bytes(b).is_ok(), len_arg: false, small: true },
         P {
@@ -78,7 +81,7 @@ pub fn all(_tier: Tier) -> Vec<P> {
             len_arg: false,
             small: true,
         },
-        P { name: "hex_decode[latin1]", seeds: hex_seeds, parse: |b, _| hex_decode(&latin1(b)).is_ok(), len_arg: false, small: true },
+        P { name: "hex_decode[latin1]", seeds: hex_seeds, parse: |b, _| hex_decode(&latin1(b)).is_ok(), len_arg: false, small: th },
         // the output buffer has the caller-expected decoded length (the length argument)
         P {
             name: "hex_decode_to_slice(out=len)",
@@ -88,42 +91,47 @@ pub fn all(_tier: Tier) -> Vec<P> {
                 hex_decode_to_slice(b, &mut out).is_ok()
             },
             len_arg: true,
-            small: true,
+            small: th,
         },
     ];
 
-    b64_pair!(v, "AdaptiveBase64[standard]::decode", b64_std_seeds, |s: &str| AdaptiveBase64::new().decode(s).is_ok());
+    b64_pair!(v, "AdaptiveBase64[standard]::decode", b64_std_seeds, |s: &str| AdaptiveBase64::new().decode(s).is_ok(), true);
     b64_pair!(
         v,
         "AdaptiveBase64[url_safe]::decode",
         |_| b64_seeds_with(|p| AdaptiveBase64::with_config(b64_cfg(true, true)).encode(p)),
-        |s: &str| AdaptiveBase64::with_config(b64_cfg(true, true)).decode(s).is_ok()
+        |s: &str| AdaptiveBase64::with_config(b64_cfg(true, true)).decode(s).is_ok(),
+        th
     );
     b64_pair!(
         v,
         "AdaptiveBase64[no_padding]::decode",
         |_| b64_seeds_with(|p| AdaptiveBase64::with_config(b64_cfg(false, false)).encode(p)),
-        |s: &str| AdaptiveBase64::with_config(b64_cfg(false, false)).decode(s).is_ok()
+        |s: &str| AdaptiveBase64::with_config(b64_cfg(false, false)).decode(s).is_ok(),
+        th
     );
     b64_pair!(
         v,
         "AdaptiveBase64[url_safe,no_padding]::decode",
         |_| b64_seeds_with(|p| AdaptiveBase64::with_config(b64_cfg(true, false)).encode(p)),
-        |s: &str| AdaptiveBase64::with_config(b64_cfg(true, false)).decode(s).is_ok()
+        |s: &str| AdaptiveBase64::with_config(b64_cfg(true, false)).decode(s).is_ok(),
+        th
     );
-    b64_pair!(v, "SimdBase64Decoder::decode", b64_std_seeds, |s: &str| SimdBase64Decoder::new().decode(s).is_ok());
+    b64_pair!(v, "SimdBase64Decoder::decode", b64_std_seeds, |s: &str| SimdBase64Decoder::new().decode(s).is_ok(), th);
     b64_pair!(
         v,
         "SimdBase64Decoder[force Scalar]::decode",
         b64_std_seeds,
-        |s: &str| SimdBase64Decoder::with_config(Base64Config { url_safe: false, padding: true, force_implementation: Some(SimdImplementation::Scalar) }).decode(s).is_ok()
+        |s: &str| SimdBase64Decoder::with_config(Base64Config { url_safe: false, padding: true, force_implementation: Some(SimdImplementation::Scalar) }).decode(s).is_ok(),
+        th
     );
-    b64_pair!(v, "base64_decode_simd", b64_std_seeds, |s: &str| base64_decode_simd(s).is_ok());
+    b64_pair!(v, "base64_decode_simd", b64_std_seeds, |s: &str| base64_decode_simd(s).is_ok(), th);
     b64_pair!(
         v,
         "simd_encoding::decode_base64",
         |_| b64_seeds_with(|p| b64io::encode_base64(p).unwrap_or_default()),
-        |s: &str| b64io::decode_base64(s).is_ok()
+        |s: &str| b64io::decode_base64(s).is_ok(),
+        true
     );
     v.push(P {
         name: "simd_encoding::decode_base64_from_buffer(out=len)",
@@ -133,7 +141,7 @@ pub fn all(_tier: Tier) -> Vec<P> {
             b64io::decode_base64_from_buffer(b, &mut out).is_ok()
         },
         len_arg: true,
-        small: true,
+        small: th,
     });
     v.push(P {
         name: "simd_encoding::decode_base64_from_buffer(out=calculate_decoded_len)",
